@@ -1,4 +1,14 @@
 """C03 - middleware, hooks and responder run in the documented stack order, once each; ASGI lifespan order."""
+import os as _os
+import sys as _sys
+
+# Responders for custom HTTP methods exist only if FALCON_CUSTOM_HTTP_METHODS is set when falcon is imported (falcon/constants.py reads it
+# at import time).  The runner's worker imports this module BEFORE anything imports falcon (falcon is only imported inside run()), so the
+# variable is set here; run() verifies that falcon picked it up and says so in the evidence if it did not.
+CUSTOM_METHODS = ['PURGE', 'SUBSCRIBE']
+_FALCON_PRELOADED = 'falcon' in _sys.modules
+_os.environ['FALCON_CUSTOM_HTTP_METHODS'] = ','.join(CUSTOM_METHODS)
+
 PROP = 'C03'
 LEAN_MODULES = ['FalconModel.PipelineProofs', 'FalconModel.PipelineSpec', 'FalconModel.PipelineErrProofs', 'FalconModel.HooksLifespanProofs',
                 'FalconModel.PipelineHooksProofs']
@@ -90,18 +100,31 @@ ASSUMPTIONS = [
     'an exception that no handler takes - a BaseException-only raise (not caught by falcon by design), or whatever an error handler raises other than HTTPError/HTTPStatus (falcon documents only these as raisable from handlers) - propagates to the server and ends the sequence: the "once each" part of the property is read as "up to that point" (Pe.run_prefix_Pl, Pe.unhandled_propagates_and_stops)',
     'components, hooks and responders either return, complete or raise (not complete-then-raise); error handlers may set resp.complete (Ph.run)',
     'hooks are applied to resource responders (falcon.before/after do not apply to sinks)',
+    'FALCON_CUSTOM_HTTP_METHODS=PURGE,SUBSCRIBE in every worker (set by harness/props/c03.py before falcon is imported; falcon reads it at import time); if falcon does not list them in COMBINED_METHODS the run says so in its notes and leaves custom methods out',
+    'WebSocket handshakes: components, hooks and the responder either return or raise (HTTPForbidden, or an application error taken by falcon\'s default handler); the responder accepts the connection and returns',
 ]
 RULE = ('stacks of 0..5 middleware components, each implementing any non-empty subset of process_request/process_resource/process_response '
-        '(ASGI: plain coroutine names or *_async next to a sync decoy), x independent_middleware in {True, False} x target in '
-        '{route, route without the method (405), sink, unrouted (404)} x 0..3 stacked before/after hooks (method- and class-level) x an action per call site '
+        '(ASGI: plain coroutine names, *_async next to a sync decoy, or *_async alone; WSGI: sync names, with or without an async *_async decoy) '
+        'AND any subset of the lifespan / WebSocket methods process_startup, process_shutdown, process_request_ws, process_resource_ws on the same component '
+        '(the shape of a component is the set of all seven methods; on WSGI the four are inert attributes, sync or async; on ASGI also components with none of the three HTTP methods, '
+        'which falcon accepts when a lifespan/WebSocket method is present) - the HTTP call discipline is judged from the three HTTP methods alone and none of the other four may be called during an HTTP request '
+        '(through falcon.testing on ASGI the lifespan handlers run around the request and are left out of the comparison); x independent_middleware in {True, False} x target in '
+        '{route, route without the method (405), sink, unrouted (404)} x the routed RESOURCE OBJECT {plain instance, empty dict subclass, empty list subclass, __len__ == 0, __bool__ False, '
+        'truthy at add_route and falsy at request time, falsy at add_route and truthy at request time} (a matched route is a matched route whatever bool(resource) is) x the request method / responder name '
+        '{GET, POST, PATCH, WebDAV REPORT / PROPFIND / MKCOL / VERSION-CONTROL, custom PURGE / SUBSCRIBE enabled through FALCON_CUSTOM_HTTP_METHODS, which this module sets before the worker imports falcon} '
+        'x 0..3 stacked before/after hooks (method- and class-level) x an action per call site '
         'from {return, set resp.complete, raise HTTPError, raise HTTPStatus, raise app error with custom handler, with only the default handler, '
         'custom handler re-raising HTTPError / HTTPStatus / a plain exception, raise a BaseException-only error (no handler at all)} x any subset of the four custom error handlers '
         'executing resp.complete = True before returning / raising; enumerated: every stack of <= 3 (quick) / <= 4 (thorough) components (the largest stacks with 4 of the 9 fault kinds) x every '
         'single-fault placement, and every stack of <= 1 (quick) / <= 2 (thorough) components x every double placement of {complete, HTTPError, handled app error, handler raising}, '
         'each x both modes x {route, unrouted} (the largest stacks routed only; 4-component stacks alternate between WSGI and ASGI) x WSGI+ASGI (every third faulty run with completing handlers); '
         'every stacking of 1..3 (quick) / 1..4 (thorough) before/after hooks x every class-level/method-level split x every single fault on a hook or the responder and every pair of '
-        '{complete, handled app error[, handler raising]} on two of them, around one full component, x both modes x WSGI+ASGI x resource class layouts, half with completing handlers; plus random stacks with 0..4 faults; plus ASGI lifespan runs over 0..5 components with any subset '
-        'of process_startup/process_shutdown and a failing one anywhere. non-trivial = at least one middleware/hook/lifespan call was made; '
+        '{complete, handled app error[, handler raising]} on two of them, around one full component, x both modes x WSGI+ASGI x resource class layouts, half with completing handlers, the request method and the resource-object kind rotated through both enumerated families by a scrambled index; '
+        'every component shape (each of the 127 non-empty subsets of the seven methods) alone / below / above a full component x both modes x {route, unrouted} x WSGI+ASGI x fault-free and a raise / completion at each of its HTTP methods; '
+        'plus random stacks with 0..4 faults; ASGI WebSocket handshakes through the whole app: 0..3 components over subsets of the seven methods, 0..3 hooks around on_websocket (every stacking of 1..2 (quick) / 1..3 (thorough) hooks x every '
+        'class-/method-level split x every class layout x fault-free and every single raise; plus random ones), target {on_websocket, route without it (close 3405), unrouted (3404)}, falsy resource objects, raises of HTTPForbidden (3403) / an application error (1011) '
+        'at process_request_ws / process_resource_ws / hooks / responder; plus ASGI lifespan runs over 0..5 components with any subset '
+        'of process_startup/process_shutdown, any subset of the five HTTP/WebSocket methods beside them, and a failing one anywhere. non-trivial = at least one middleware/hook/lifespan call was made; '
         'distinct = distinct (stack kind, configuration, action assignment)')
 PARTIAL = ('Proved in Lean: the whole call trace of the model equals the documented discipline (Pl.run_eq_spec) in both middleware modes, the hook order and the lifespan order; '
            'and for the refined model Pe.run (ten actions, handler invocations in the trace, outcome responded(status) | escaped): refinement to Pl.run, one handler call per raise at its site, '
@@ -109,6 +132,9 @@ PARTIAL = ('Proved in Lean: the whole call trace of the model equals the documen
            'The hooks inside the pipeline and error handlers that mark the response complete are modelled by Ph.run (resp.complete threaded as state through every callee and handler) and proved: '
            'hook order with called-iff per position (Ph.hook_order, Ph.hook_called_iff), refinement to Pe.run by flattening (Ph.hooks_refine_pe) with the Pe/Pl theorems lifted (discipline, response methods once, success flag, '
            'one handler call per raise at the hook that raised, escape iff), handler-set resp.complete recorded but never consulted (Ph.handler_complete_inert, Ph.final_complete_eq). '
+           'The models take the routing outcome (route / 405 / sink / 404), the three HTTP methods of each component and the hook stack as inputs: the kind of resource object, the request method '
+           '(standard / WebDAV / custom) and the lifespan/WebSocket methods of a component cannot be expressed in them - the same model line is sent whatever they are, so the correspondence demands that the real trace does not depend on them, '
+           'and the oracle judges them. The WebSocket handshake path (_handle_websocket: process_request_ws / process_resource_ws / on_websocket) is not modelled in Lean: it is oracle-only, except that the hook part of its trace is compared with Hk.wrap. '
            'Not modelled in Lean: what happens after the response loop (body rendering and its own except block: C05); callees that set resp.complete and then raise; hooks on sinks (falcon does not support them). '
            'Default-handler invocations are model events that the correspondence can only check through the final status.')
 JOBS = {'quick': 12, 'thorough': 16}
@@ -125,6 +151,16 @@ class _BaseOnly(BaseException):
     """raised by the 'base' action: derives from BaseException only, so no error handler exists for it (not even falcon's
     default one for Exception) and `except Exception` in __call__ does not catch it."""
 METHS = ('req', 'rsrc', 'resp')
+# the other methods a middleware component may define (ASGI lifespan + WebSocket); the SHAPE of a component is the set of all seven.
+# On WSGI they are inert extra attributes.  c['extras'] maps name -> action (only the *_ws ones ever act, and only in WebSocket cases).
+EXTRAS = ('startup', 'shutdown', 'request_ws', 'resource_ws')
+# what kind of object the routed resource is: any object with on_* attributes is a resource, whatever bool(resource) says
+RESOBJ = ['plain', 'empty_dict_subclass', 'empty_list_subclass', 'len_0', 'bool_false', 'falsy_after_add_route', 'truthy_after_add_route']
+# request methods a responder may serve: standard verbs, WebDAV, custom ones (FALCON_CUSTOM_HTTP_METHODS); 'WEBSOCKET' is the _websocket() part
+STD_VERBS = ['GET', 'POST', 'PATCH']
+DAV_VERBS = ['REPORT', 'PROPFIND', 'MKCOL', 'VERSION-CONTROL']
+VERBS = STD_VERBS + DAV_VERBS + CUSTOM_METHODS          # run() removes CUSTOM_METHODS if falcon did not pick the variable up
+WS_CODE = {'http': 3403, 'app_d': 1011}                 # WebSocket close codes: HTTPForbidden -> 3403, unhandled application error -> 1011
 
 
 # ------------------------------------------------------------------ the oracle: the documented discipline
@@ -266,6 +302,8 @@ def _build(case, trace, box=None):
                 if variant == 1:
                     d[name + '_async'] = fn_async
                     d[name] = lambda self, *a, **k: trace.append('WRONG-sync-twin:' + name)
+                elif variant == 2:
+                    d[name + '_async'] = fn_async                     # only the *_async spelling, no sync twin
                 else:
                     d[name] = fn_async
             else:
@@ -288,6 +326,22 @@ def _build(case, trace, box=None):
             async def arp(self, req, resp, resource, req_succeeded, a=c['resp']):
                 act(a, resp, f'resp:{i}:{str(resource is not None).lower()}:{str(req_succeeded is True).lower()}')
             add('process_response', rp, arp)
+        # lifespan / WebSocket methods of the same component (ASGI: coroutines, as falcon requires; WSGI: inert attributes, sync or async).
+        # In an HTTP request none of them may be called: their labels would show up in the trace.
+        ex = c.get('extras') or {}
+        sync_extra = (not asgi) and variant == 1
+        if 'startup' in ex:
+            async def pst(self, scope, event): trace.append(f'startup:{i}')
+            d['process_startup'] = (lambda self, *a, **k: trace.append(f'startup:{i}')) if sync_extra else pst
+        if 'shutdown' in ex:
+            async def psh(self, scope, event): trace.append(f'shutdown:{i}')
+            d['process_shutdown'] = (lambda self, *a, **k: trace.append(f'shutdown:{i}')) if sync_extra else psh
+        if 'request_ws' in ex:
+            async def prw(self, req, ws, a=ex['request_ws']): act(a, ws, f'reqws:{i}')
+            d['process_request_ws'] = (lambda self, *a, **k: trace.append(f'reqws:{i}')) if sync_extra else prw
+        if 'resource_ws' in ex:
+            async def psw(self, req, ws, resource, params, a=ex['resource_ws']): act(a, ws, f'rsrcws:{i}')
+            d['process_resource_ws'] = (lambda self, *a, **k: trace.append(f'rsrcws:{i}')) if sync_extra else psw
         return type(f'C{i}', (), d)()
 
     comps = [component(i, c) for i, c in enumerate(case['comps'])]
@@ -298,7 +352,12 @@ def _build(case, trace, box=None):
     target = case['target']
     if target in ('route', 'nomethod'):
         ra = case['responder']
-        if asgi:
+        is_ws = case.get('kind') == 'ws'
+        if is_ws:
+            async def on_x(self, req, ws):
+                act(ra, ws, 'responder')
+                await ws.accept()
+        elif asgi:
             async def on_x(self, req, resp): act(ra, resp, 'responder')
         else:
             def on_x(self, req, resp): act(ra, resp, 'responder')
@@ -323,7 +382,16 @@ def _build(case, trace, box=None):
         # decorated class, inherited and suffixed ones included)
         layout = case.get('layout', 'flat')
         suffix = 'items' if layout in ('suffix', 'inherited_suffix') else None
-        rname = ('on_get' if target == 'route' else 'on_post') + ('_' + suffix if suffix else '')
+        verb = 'WEBSOCKET' if is_ws else case.get('verb', 'GET')
+        # target route: the resource implements the request method; nomethod: it implements another one only
+        rname = ('on_' + verb.lower() if target == 'route' else ('on_post' if verb != 'POST' else 'on_patch')) + ('_' + suffix if suffix else '')
+        # the resource OBJECT: plain, or falsy (empty dict/list subclass, __len__ 0, __bool__ False), or changing after registration
+        resobj = case.get('resobj', 'plain')
+        truth = {'v': resobj != 'truthy_after_add_route'}
+        xb = {'empty_dict_subclass': (dict,), 'empty_list_subclass': (list,)}.get(resobj, ())
+        xn = {'len_0': {'__len__': lambda self: 0}, 'bool_false': {'__bool__': lambda self: False},
+              'falsy_after_add_route': {'__bool__': lambda self: truth['v']},
+              'truthy_after_add_route': {'__bool__': lambda self: truth['v']}}.get(resobj, {})
         if asgi:
             async def other(self, req, resp): act('ret', resp, 'WRONG-responder')
         else:
@@ -334,29 +402,30 @@ def _build(case, trace, box=None):
                 c = hook(k, kind, a)(c)
             return c
         if layout in ('flat', 'suffix'):
-            cls = deco(type('Res', (), {rname: on_x, 'on_delete': other}), hooks[:n_class])
+            cls = deco(type('Res', xb, dict(xn, **{rname: on_x, 'on_delete': other})), hooks[:n_class])
         elif layout in ('inherited', 'inherited_suffix'):
             base = type('Base', (), {rname: on_x})
-            cls = deco(type('Res', (base,), {'on_delete': other}), hooks[:n_class])
+            cls = deco(type('Res', (base,) + xb, dict(xn, on_delete=other)), hooks[:n_class])
         elif layout == 'grandparent':
             base = type('Base', (), {rname: on_x})
             mid = type('Mid', (base,), {'on_put': other})
-            cls = deco(type('Res', (mid,), {'on_delete': other}), hooks[:n_class])
+            cls = deco(type('Res', (mid,) + xb, dict(xn, on_delete=other)), hooks[:n_class])
         elif layout == 'mixin':
             mixin = type('Mixin', (), {rname: on_x})
             plain = type('Plain', (), {'helper': lambda self: None})
-            cls = deco(type('Res', (plain, mixin), {'on_delete': other}), hooks[:n_class])
+            cls = deco(type('Res', (plain, mixin) + xb, dict(xn, on_delete=other)), hooks[:n_class])
         elif layout == 'base_decorated':
             base = deco(type('Base', (), {rname: on_x}), hooks[:n_class])
-            cls = type('Res', (base,), {'on_delete': other})
+            cls = type('Res', (base,) + xb, dict(xn, on_delete=other))
         elif layout == 'split_decorated':
             # the outer half of the class-level hooks decorates the subclass, the inner half the base class
             h = n_class // 2
             base = deco(type('Base', (), {rname: on_x}), hooks[h:n_class])
-            cls = deco(type('Res', (base,), {'on_delete': other}), hooks[:h])
+            cls = deco(type('Res', (base,) + xb, dict(xn, on_delete=other)), hooks[:h])
         else:
             raise AssertionError(layout)
         app.add_route('/', cls(), **({'suffix': suffix} if suffix else {}))
+        truth['v'] = not truth['v']        # (only the two *_after_add_route kinds read it)
     elif target == 'sink':
         ra = case['responder']
         if asgi:
@@ -488,15 +557,22 @@ def _execute(ctx, sess, hsess, case, via_testing=False, xsess=None, psess=None):
     app = _build(case, trace, box)
     if via_testing and 'base' in [c[k] for c in case['comps'] for k in METHS] + [case['responder']] + [a for _, a in case['hooks']]:
         via_testing = False                 # the testing client's own loop/validator is not made for BaseException-only raises
+    verb = case.get('verb', 'GET')
+    if via_testing and case['stack'] == 'wsgi' and verb not in ('GET', 'POST', 'PATCH'):
+        via_testing = False                 # wsgiref.validate (used by the WSGI testing client) rejects WebDAV / custom request methods
     try:
         if via_testing:
-            r = call_via_testing(app)
+            r = call_via_testing(app, method=verb)
         elif case['stack'] == 'asgi':
-            r = call_asgi(app)
+            r = call_asgi(app, method=verb)
         else:
-            r = call_wsgi(app)
+            r = call_wsgi(app, method=verb)
     except _BaseOnly as e:                  # lib_appcall reports Exception-derived escapes only
         r = Result(escaped=e)
+    if via_testing and case['stack'] == 'asgi':
+        # falcon.testing drives the ASGI lifespan protocol around the request: the startup/shutdown handlers legitimately run there
+        # (their order is the subject of _lifespan()); everywhere else a lifespan call during an HTTP request stays in the trace
+        trace[:] = [t for t in trace if not t.startswith(('startup:', 'shutdown:'))]
     exp_tr, exp_status, exp_esc = spec(case)
     what = None
     if trace != exp_tr:
@@ -531,6 +607,16 @@ def _execute(ctx, sess, hsess, case, via_testing=False, xsess=None, psess=None):
     ctx.count('target_' + case['target'])
     ctx.count('mode_' + ('independent' if case['independent'] else 'dependent'))
     ctx.count(f"components_{len(case['comps'])}")
+    for c in case['comps']:
+        ex = c.get('extras') or {}
+        if ex:
+            ctx.count('component_shape_http_' + ('+'.join(k for k in METHS if c[k] is not None) or 'none') + '_with_' +
+                      ('lifespan' if ('startup' in ex or 'shutdown' in ex) else '') + ('+' if (('startup' in ex or 'shutdown' in ex) and ('request_ws' in ex or 'resource_ws' in ex)) else '') +
+                      ('ws' if ('request_ws' in ex or 'resource_ws' in ex) else '') + '_methods_' + case['stack'])
+    if case['target'] in ('route', 'nomethod'):
+        ctx.count('resource_object_' + case.get('resobj', 'plain') + '_' + case['target'])
+    ctx.count('request_method_' + ('standard' if verb in STD_VERBS else 'webdav' if verb in DAV_VERBS else 'custom') +
+              ('_class_level_hooks' if case['hooks'] and case.get('class_hooks', 0) and case['target'] == 'route' else ''))
     nf = sum(1 for c in case['comps'] for k in METHS if c[k] not in (None, 'ret')) + (case['responder'] != 'ret') + sum(1 for _, a in case['hooks'] if a != 'ret')
     ctx.count(f'faults_{min(nf, 4)}{"+" if nf >= 4 else ""}')
     if case.get('hcomplete'):
@@ -544,6 +630,12 @@ def _execute(ctx, sess, hsess, case, via_testing=False, xsess=None, psess=None):
         ctx.count('class_level_hooks_%d_layout_%s' % (min(case.get('class_hooks', 0), 1), case.get('layout', 'flat')))
     if exp_esc:
         ctx.count('escaped_no_handler' if trace and not trace[-1].startswith('h:') else 'escaped_handler_raised_plain_exception')
+
+
+def _mix(idx):
+    """a deterministic scrambling of the enumeration index: the dimensions that are rotated (not multiplied) through an enumerated family
+    must not run in step with its loop variables"""
+    return ((idx * 0x9E3779B1) & 0xFFFFFFFF) >> 9
 
 
 def _shapes(n):
@@ -584,6 +676,11 @@ def _enumerated(ctx, max_single, max_double):
                                 else:
                                     comps[ci][m] = f
                             case = {'stack': stack, 'independent': indep, 'target': target, 'comps': comps, 'hooks': [], 'responder': responder}
+                            h = _mix(idx)
+                            if target == 'route' and h % 2:
+                                case['resobj'] = RESOBJ[(h // 2) % len(RESOBJ)]       # every other routed run: one of the seven resource-object kinds
+                            if (h // 16) % 4 == 0:
+                                case['verb'] = VERBS[(h // 64) % len(VERBS)]          # every fourth run: a request method other than GET
                             if idx % 3 == 0 and any(f in CUSTOM for _, f in pl):
                                 case['hcomplete'] = list(CUSTOM)      # every third faulty run: the custom error handlers set resp.complete
                             yield len(pl), case
@@ -619,9 +716,48 @@ def _enumerated_hooks(ctx, max_hooks):
                             case = {'stack': stack, 'independent': indep, 'target': 'route', 'comps': [{m: 'ret' for m in METHS}],
                                     'hooks': hooks, 'responder': responder, 'class_hooks': n_class,
                                     'layout': LAYOUTS[(pi + n_class) % len(LAYOUTS)]}
+                            # the responder's request method and the resource object rotate independently of layout / split / mode / stack
+                            h = _mix(idx)
+                            case['verb'] = VERBS[h % len(VERBS)]
+                            if (h // 16) % 3:
+                                case['resobj'] = RESOBJ[(h // 64) % len(RESOBJ)]
                             if (pi + n_class + indep) % 2:
                                 case['hcomplete'] = list(CUSTOM)
                             yield len(pl), case
+
+
+def _enumerated_shapes(ctx):
+    """every component SHAPE = subset of the seven middleware methods (3 HTTP + startup/shutdown + process_request_ws/process_resource_ws;
+    the 15 shapes without any HTTP method on ASGI only - falcon rejects them on WSGI), alone / below / above a component with all three
+    HTTP methods, x both modes x {route, unrouted} x WSGI+ASGI x the fault-free run and a raise or a completion at each of its HTTP methods.
+    The HTTP call discipline may depend on the HTTP methods only."""
+    idx = 0
+    i, k = ctx.shard
+    for mask in range(1, 128):
+        http = [m for b, m in enumerate(METHS) if mask >> b & 1]
+        extras = {x: 'ret' for b, x in enumerate(EXTRAS) if mask >> (3 + b) & 1}
+        placements = [None] + [(m, f) for m in http for f in ('http', 'complete')]
+        for pos in ('alone', 'below_full', 'above_full'):
+            for pl in placements:
+                for indep in (True, False):
+                    for target in ('route', 'none'):
+                        for stack in ('wsgi', 'asgi'):
+                            if not http and stack == 'wsgi':
+                                continue
+                            idx += 1
+                            if idx % k != i:
+                                continue
+                            comp = {m: ('ret' if m in http else None) for m in METHS}
+                            comp['extras'] = dict(extras)
+                            h = _mix(idx)
+                            if h % 3 == 1:
+                                comp['variant'] = 1 + (h // 3) % 2
+                            if pl is not None:
+                                comp[pl[0]] = pl[1]
+                            full = {m: 'ret' for m in METHS}
+                            comps = {'alone': [comp], 'below_full': [full, comp], 'above_full': [comp, full]}[pos]
+                            yield (0 if pl is None else 1), {'stack': stack, 'independent': indep, 'target': target, 'comps': comps, 'hooks': [],
+                                                             'responder': 'ret'}
 
 
 LAYOUTS = ['flat', 'suffix', 'inherited', 'inherited_suffix', 'grandparent', 'mixin', 'base_decorated', 'split_decorated']
@@ -635,14 +771,25 @@ def _random_case(rnd):
         if all(v is None for v in c.values()):
             c[rnd.choice(METHS)] = 'ret'
         if rnd.random() < 0.3:
-            c['variant'] = 1
+            c['variant'] = rnd.choice([1, 1, 2])
+        if rnd.random() < 0.4:
+            c['extras'] = {x: 'ret' for x in rnd.sample(EXTRAS, rnd.randint(1, len(EXTRAS)))}   # lifespan / WebSocket methods on the same component
         comps.append(c)
+    stack = rnd.choice(['wsgi', 'asgi'])
+    if stack == 'asgi' and comps and rnd.random() < 0.15:
+        # a component without any HTTP method (ASGI accepts it if it has a lifespan or WebSocket method): a no-op in every HTTP stack
+        comps.insert(rnd.randint(0, len(comps)), {'req': None, 'rsrc': None, 'resp': None,
+                                                  'extras': {x: 'ret' for x in rnd.sample(EXTRAS, rnd.randint(1, len(EXTRAS)))}})
     target = rnd.choice(['route', 'route', 'route', 'route', 'nomethod', 'sink', 'none'])
     hooks = []
     if target == 'route' and rnd.random() < 0.6:
         hooks = [[rnd.choice(['before', 'after']), 'ret'] for _ in range(rnd.randint(1, 3))]
-    case = {'stack': rnd.choice(['wsgi', 'asgi']), 'independent': rnd.random() < 0.5, 'target': target, 'comps': comps,
+    case = {'stack': stack, 'independent': rnd.random() < 0.5, 'target': target, 'comps': comps,
             'hooks': hooks, 'responder': 'ret'}
+    if rnd.random() < 0.5:
+        case['verb'] = rnd.choice(VERBS)
+    if target in ('route', 'nomethod') and rnd.random() < 0.5:
+        case['resobj'] = rnd.choice(RESOBJ)
     if hooks:
         case['class_hooks'] = rnd.randint(0, len(hooks))
     if target in ('route', 'nomethod') and rnd.random() < 0.6:
@@ -662,7 +809,17 @@ def _random_case(rnd):
 
 
 def run(ctx):
+    from falcon import constants
+    missing = [m for m in CUSTOM_METHODS if m not in constants.COMBINED_METHODS]
+    if missing:
+        # (never on the unchanged tree under the runner: this module sets the variable before the worker imports falcon)
+        ctx.notes.append(f'custom HTTP methods {missing} are not in falcon.constants.COMBINED_METHODS although FALCON_CUSTOM_HTTP_METHODS was set '
+                         f'{"after" if _FALCON_PRELOADED else "before"} falcon was imported: responders for custom methods are not exercised in this run')
+        ctx.count('custom_methods_unavailable')
+        for m in missing:
+            VERBS.remove(m)
     _requests(ctx)
+    _websocket(ctx)
     _lifespan(ctx)
 
 
@@ -681,6 +838,9 @@ def _requests(ctx):
         for nf, case in _enumerated_hooks(ctx, 3 if ctx.quick else 4):
             _execute(ctx, sess, hsess, case, xsess=xsess, psess=psess)
             ctx.count(f'enumerated_hooks_{nf}_fault')
+        for nf, case in _enumerated_shapes(ctx):
+            _execute(ctx, sess, hsess, case, xsess=xsess, psess=psess)
+            ctx.count(f'enumerated_shapes_{nf}_fault')
     for j in range(ctx.n(16000, 100000)):
         case = _random_case(rnd)
         _execute(ctx, sess, hsess, case, via_testing=(j % 16 == 0), xsess=xsess, psess=psess)
@@ -688,6 +848,165 @@ def _requests(ctx):
     sess.finish()
     xsess.finish()
     psess.finish()
+    hsess.finish()
+
+
+# ------------------------------------------------------------------ ASGI WebSocket handshakes: hooks around on_websocket
+
+def spec_ws(case):
+    """The documented order for a WebSocket handshake: process_request_ws top-down, (route matched) process_resource_ws top-down, then the
+    WebSocket responder inside its hooks - before hooks outermost first, on_websocket, after hooks innermost first; the first raise ends
+    the sequence.  No HTTP middleware method takes part.  Returns (trace, close code)."""
+    tr = []
+
+    def site(label, a):
+        tr.append(label)
+        return WS_CODE.get(a)
+    for i, c in enumerate(case['comps']):
+        a = (c.get('extras') or {}).get('request_ws')
+        if a is not None:
+            code = site(f'reqws:{i}', a)
+            if code:
+                return tr, code
+    if case['target'] == 'none':
+        return tr, 3404
+    for i, c in enumerate(case['comps']):
+        a = (c.get('extras') or {}).get('resource_ws')
+        if a is not None:
+            code = site(f'rsrcws:{i}', a)
+            if code:
+                return tr, code
+    if case['target'] == 'nomethod':
+        return tr, 3405
+    befores = [(k, a) for k, (kind, a) in enumerate(case['hooks']) if kind == 'before']
+    afters = [(k, a) for k, (kind, a) in enumerate(case['hooks']) if kind == 'after']
+    for label, a in [(f'bef:{k}', a) for k, a in befores] + [('responder', case['responder'])] + [(f'aft:{k}', a) for k, a in reversed(afters)]:
+        code = site(label, a)
+        if code:
+            return tr, code
+    return tr, 1000
+
+
+def _random_ws_case(rnd):
+    comps = []
+    for _ in range(rnd.choice([0, 1, 1, 2, 2, 3])):
+        names = rnd.sample(METHS + EXTRAS, rnd.randint(1, 7))
+        c = {m: ('ret' if m in names else None) for m in METHS}
+        c['extras'] = {x: 'ret' for x in EXTRAS if x in names}
+        if rnd.random() < 0.3:
+            c['variant'] = rnd.choice([1, 2])
+        comps.append(c)
+    target = rnd.choice(['route', 'route', 'route', 'route', 'route', 'nomethod', 'none'])
+    hooks = [[rnd.choice(['before', 'after']), 'ret'] for _ in range(rnd.choice([0, 1, 1, 2, 2, 3]))] if target == 'route' else []
+    case = {'stack': 'asgi', 'kind': 'ws', 'independent': rnd.random() < 0.5, 'target': target, 'comps': comps, 'hooks': hooks, 'responder': 'ret'}
+    if hooks:
+        case['class_hooks'] = rnd.choice([0] + [len(hooks)] * 2 + list(range(len(hooks) + 1)))
+    if target != 'none':
+        case['layout'] = rnd.choice(LAYOUTS)
+        if rnd.random() < 0.5:
+            case['resobj'] = rnd.choice(RESOBJ)
+    sites = [('ws', ci, x) for ci, c in enumerate(comps) for x in ('request_ws', 'resource_ws') if x in c['extras']] + [('responder',)] + [('hook', k) for k in range(len(hooks))]
+    for s_ in rnd.sample(sites, min(len(sites), rnd.choice([0, 0, 1, 1, 2]))):
+        f = rnd.choice(sorted(WS_CODE))
+        if s_[0] == 'ws':
+            comps[s_[1]]['extras'][s_[2]] = f
+        elif s_[0] == 'hook':
+            hooks[s_[1]][1] = f
+        else:
+            case['responder'] = f
+    return case
+
+
+ORACLE_WS = ('WebSocket handshake: process_request_ws / process_resource_ws top-down, then the hooks around on_websocket (before hooks outermost first, '
+             'the responder, after hooks innermost first), cut at the first raise; no HTTP middleware method; close code')
+
+
+def _websocket(ctx):
+    """ASGI WebSocket handshakes through the whole app.  The Lean pipeline models (Pl/Pe/Ph.run) describe App.__call__ for HTTP requests only:
+    these cases are judged by the oracle; the hook part of the trace is also compared with Hk.wrap."""
+    import asyncio
+    import itertools
+    import falcon.testing as ft
+    from lib_appcall import loop
+    rnd = ctx.rng
+    hsess = ctx.session('falcon.before/after wrapped on_websocket responder (ASGI WebSocket handshake) = Hk.wrap', 'hkdriver')
+
+    async def call(app):
+        scope = ft.create_scope_ws(path='/')
+        events = [{'type': 'websocket.connect'}, {'type': 'websocket.disconnect', 'code': 1000}]
+        never = asyncio.get_running_loop().create_future()
+        sent = []
+
+        async def receive():
+            if events:
+                return events.pop(0)
+            await never
+
+        async def send(ev):
+            sent.append(ev)
+        try:
+            await asyncio.wait_for(app(scope, receive, send), 5)
+        except asyncio.TimeoutError:
+            return sent, 'did not return'
+        except Exception as e:  # noqa
+            return sent, e
+        return sent, None
+
+    def execute(case):
+        trace = []
+        app = _build(case, trace)
+        sent, escaped = loop().run_until_complete(call(app))
+        exp_tr, exp_code = spec_ws(case)
+        codes = [e.get('code', 1000) for e in sent if e['type'] == 'websocket.close']
+        what = None
+        if trace != exp_tr:
+            what = f'call trace {trace} differs from the documented order {exp_tr}'
+        elif escaped is not None:
+            what = f'the handshake ended with {escaped!r}'
+        elif codes != [exp_code]:
+            what = f'close codes sent {codes}, expected [{exp_code}]'
+        ctx.oracle(ORACLE_WS, what is None, what, case)
+        part = [t for t in trace if t.startswith(('bef:', 'aft:')) or t == 'responder']
+        if case['hooks'] and part:
+            hsess.case({'case': case})
+            hsess.op(_hook_line(case), ' '.join(part))
+        ctx.seen(('ws', repr(sorted(case.items(), key=str))), len(trace) > 0)
+        ctx.count('websocket_handshake')
+        ctx.count('websocket_target_' + case['target'])
+        if case['target'] == 'route':
+            ctx.count(f"websocket_hooks_{len(case['hooks'])}_class_level_{min(case.get('class_hooks', 0), 1)}")
+            ctx.count('websocket_layout_' + case.get('layout', 'flat'))
+        if case['target'] != 'none':
+            ctx.count('websocket_resource_object_' + case.get('resobj', 'plain'))
+
+    if not ctx.searching:
+        # every stacking of 1..2 (quick) / 1..3 (thorough) hooks x every class-/method-level split x the fault-free run and every single raise
+        idx = 0
+        i, k = ctx.shard
+        full = {'req': 'ret', 'rsrc': 'ret', 'resp': 'ret', 'extras': {x: 'ret' for x in EXTRAS}}
+        for n in range(1, (2 if ctx.quick else 3) + 1):
+            for kinds in itertools.product(('before', 'after'), repeat=n):
+                for pl in [None] + [(s_, f) for s_ in list(range(n)) + ['responder'] for f in sorted(WS_CODE)]:
+                    for n_class in range(n + 1):
+                        for layout in LAYOUTS:
+                            idx += 1
+                            if idx % k != i:
+                                continue
+                            hooks = [[kind, 'ret'] for kind in kinds]
+                            responder = 'ret'
+                            if pl is not None and pl[0] == 'responder':
+                                responder = pl[1]
+                            elif pl is not None:
+                                hooks[pl[0]][1] = pl[1]
+                            h = _mix(idx)
+                            case = {'stack': 'asgi', 'kind': 'ws', 'independent': bool(h % 2), 'target': 'route', 'comps': [dict(full, extras=dict(full['extras']))],
+                                    'hooks': hooks, 'responder': responder, 'class_hooks': n_class, 'layout': layout}
+                            if (h // 2) % 2:
+                                case['resobj'] = RESOBJ[(h // 4) % len(RESOBJ)]
+                            execute(case)
+                            ctx.count('websocket_enumerated_hooks')
+    for _ in range(ctx.n(2500, 30000)):
+        execute(_random_ws_case(rnd))
     hsess.finish()
 
 
@@ -713,6 +1032,9 @@ def _lifespan_spec(comps):
     return calls, events + ['lifespan.shutdown.complete']
 
 
+LIFESPAN_OTHER = ['process_request', 'process_resource', 'process_response', 'process_request_ws', 'process_resource_ws']
+
+
 def _lifespan(ctx):
     import asyncio
     import falcon.asgi
@@ -735,9 +1057,12 @@ def _lifespan(ctx):
                     calls.append(f'shutdown:{i}')
                     if a == 'raise': raise RuntimeError('shutdown failed')
                 d['process_shutdown'] = process_shutdown
-            if c['other'] or not d:
-                async def process_request(self, req, resp): calls.append(f'WRONG-request:{i}')
-                d['process_request'] = process_request
+            other = list(c['other'])
+            if not d and not other:
+                other = ['process_request']          # (falcon rejects a component without any middleware method)
+            for name in other:
+                async def wrong(self, *a, _n=name, **k): calls.append(f'WRONG-{_n}:{i}')
+                d[name] = wrong
             return type(f'L{i}', (), d)()
         app = falcon.asgi.App(middleware=[mk(i, c) for i, c in enumerate(comps)])
         pending = [{'type': 'lifespan.startup'}, {'type': 'lifespan.shutdown'}]
@@ -764,7 +1089,9 @@ def _lifespan(ctx):
     name = 'lifespan: process_startup in order, process_shutdown in reverse, first failure reported (with a message) and stops'
     for _ in range(ctx.n(1500, 40000)):
         n = rnd.randint(0, 5)
-        comps = [{'startup': rnd.choice([None, 'ret', 'ret', 'ret']), 'shutdown': rnd.choice([None, 'ret', 'ret', 'ret']), 'other': rnd.random() < 0.4} for _ in range(n)]
+        # besides process_startup / process_shutdown a component may define any of the HTTP and WebSocket methods (none is called here)
+        comps = [{'startup': rnd.choice([None, 'ret', 'ret', 'ret']), 'shutdown': rnd.choice([None, 'ret', 'ret', 'ret']),
+                  'other': sorted(rnd.sample(LIFESPAN_OTHER, rnd.randint(1, len(LIFESPAN_OTHER)))) if rnd.random() < 0.5 else []} for _ in range(n)]
         sites = [(i, k) for i, c in enumerate(comps) for k in ('startup', 'shutdown') if c[k] is not None]
         for (i, k) in rnd.sample(sites, min(len(sites), rnd.choice([0, 0, 1, 1, 2]))):
             comps[i][k] = 'raise'
@@ -783,6 +1110,8 @@ def _lifespan(ctx):
         sess.op(line, ' '.join(calls) + ' | ' + ' '.join(types))
         ctx.seen(('lifespan', line), bool(calls))
         ctx.count('lifespan')
+        if any(c['other'] for c in comps):
+            ctx.count('lifespan_components_with_http_or_ws_methods')
         ctx.count('lifespan_startup_failed' if 'lifespan.startup.failed' in types else 'lifespan_shutdown_failed' if 'lifespan.shutdown.failed' in types else 'lifespan_clean')
     sess.finish()
 
